@@ -901,6 +901,9 @@ package main
 // (the content type is detected from the bytes of the upload - not from the zero padding of the sniffing buffer)
 //@   assert at call DetectContentType [C16] only_uploaded_bytes_are_sniffed: len($1) == lastReadN
 //@   assert at call media.Handler.Upload [C16] api_key_checked: isValid
+// (the content type recorded with an upload is the one sniffed from its bytes or, when that says nothing, the declared one
+// in canonical - lower-case - form: the download handler's test for active content is case-sensitive)
+//@   assert at call media.Handler.Upload [C16] recorded_type_sniffed_or_canonical: $1 != nil && ($1.MimeType == lastSniffedType || (lastSniffedType == "application/octet-stream" && $1.MimeType == lastCanonicalType))
 //@   assert at call media.Handler.Headers#2 [C16] method_checked: req.Method == "POST" || req.Method == "PUT" || req.Method == "HEAD"
 //@   assert at call media.Handler.Headers#2 [C16] only_after_checks: isValid && challenge == nil
 //@   assert at call media.Handler.Upload [C16] no_challenge_pending: challenge == nil
